@@ -319,3 +319,7 @@ func MustNotBlock(label string, f func()) {
 
 // Now is the current time (for the executor: an arbitrary instant not before any earlier one).
 func Now() time.Time { return time.Now() }
+
+// Concretely returns c; the executor forks when c is not decided by the path (so that the harness
+// can branch on it with ordinary Go control flow at a place of its choosing).
+func Concretely(c bool) bool { return c }
